@@ -26,6 +26,7 @@ import (
 	"os"
 	"os/exec"
 	"path/filepath"
+	"reflect"
 	"regexp"
 	"sort"
 	"strings"
@@ -58,6 +59,7 @@ type Result struct {
 	Rounds           int       `json:"rounds"`
 	Logged           []string  `json:"warnings_logged,omitempty"`
 	TransportErrors  int       `json:"transport_errors"`
+	StepFailures     int       `json:"invocations_dropped_by_a_failed_postprocessor,omitempty"`
 	File             string    `json:"file,omitempty"`
 }
 
@@ -76,6 +78,14 @@ func dumpShared(provider any) []string {
 		if f, ok := fieldByName(provider, name); ok {
 			for _, l := range deepDump(f.Interface()) {
 				out = append(out, name+l)
+			}
+		}
+	}
+	// the http/json decoder keeps the decoded ammo of a JSON-array file and serves the same objects every pass
+	if dec, ok := fieldByName(provider, "Decoder"); ok && dec.Kind() == reflect.Interface && !dec.IsNil() {
+		if f, ok := fieldByName(dec.Interface(), "ammos"); ok {
+			for _, l := range deepDump(f.Interface()) {
+				out = append(out, "Decoder.ammos"+l)
 			}
 		}
 	}
@@ -144,6 +154,8 @@ func runRound(c Case, res *Result) {
 		}
 		if isTransportError(msg) {
 			transport++
+		} else if isDroppedInvocation(c, e.Level, msg) {
+			res.StepFailures++
 		} else {
 			viol.add("the run logged a failure that is not a transport error (the target answers every request properly): %s %s", e.Level, msg)
 		}
@@ -202,6 +214,16 @@ func isTransportError(msg string) bool {
 		}
 	}
 	return false
+}
+
+// isDroppedInvocation: the warning a scenario gun logs when a postprocessor rejected an answer of the target
+// (only cases whose target gives such answers on purpose).
+func isDroppedInvocation(c Case, lvl zapcore.Level, msg string) bool {
+	if c.Scen == nil || c.Scen.FailEvery <= 0 || lvl != zapcore.WarnLevel || !strings.HasPrefix(msg, "Invalid ammo") {
+		return false
+	}
+	low := strings.ToLower(msg)
+	return strings.Contains(low, "postprocessor") && (strings.Contains(low, "assert failed") || strings.Contains(low, "failed to unmarshal json"))
 }
 
 // TestChild executes the case named by C11_CHILD_CASE; it is only ever run by check() below.
@@ -572,6 +594,8 @@ func label(c Case, o *vf.Obs, res *Result) {
 	o.ClassIf(overlap, "overlap_measured")
 	o.ClassIf(res.Guns.MaxActive >= 4, "overlap_ge_4")
 	o.ClassIf(res.TransportErrors > 0, "transport_errors_under_load")
+	o.ClassIf(res.StepFailures > 0, "invocations_dropped_after_failed_postprocessor")
+	o.ClassIf(res.StepFailures > 0 && overlap, "invocations_dropped_while_shots_overlap")
 	if len(res.Logged) > 0 {
 		o.Note("warnings_logged", res.Logged)
 	}
